@@ -326,6 +326,23 @@ pub fn r_u8_class(s: &str) -> usize {
     s.bytes().map(|b| (b.is_ascii_uppercase() as usize) + 2 * (b.is_ascii_digit() as usize) + 4 * (b.is_ascii_punctuation() as usize) + 8 * (b.is_ascii_whitespace() as usize)
         + (b.to_ascii_lowercase() as usize) * 16 + (b.to_ascii_uppercase() as usize)).sum()
 }
+pub fn r_try_from(s: &str) -> usize {
+    let mut acc = 0usize;
+    for c in s.chars() {
+        acc += match u8::try_from(c) { Ok(b) => b as usize, Err(_) => 1000 };
+        acc += u32::from(c) as usize % 7;
+        acc += char::from_u32(c as u32 + 1).map(|x| x as usize % 5).unwrap_or(3);
+    }
+    acc + u8::try_from(s.len() * 40).map(|b| b as usize).unwrap_or(9999) + char::from(65u8) as usize
+}
+pub fn r_nested_closure(s: &str) -> String {
+    let keep = |b: u8| b.is_ascii_uppercase() && !b"XY".contains(&b);
+    if s.bytes().any(keep) {
+        s.chars().map(|c| match u8::try_from(c) { Ok(b) if keep(b) => c.to_ascii_lowercase(), _ => c }).collect::<String>()
+    } else {
+        s.to_string()
+    }
+}
 pub fn r_clone_from(s: &str) -> String {
     let mut a = String::from("old");
     let b = s.to_string();
@@ -353,6 +370,8 @@ mod probe_native {
             let s: &str = s;
             println!("PROBE\tp_find_digit\t{}\t{:?}", i, p_find_digit(s));
             println!("PROBE\tr_clone_from\t{}\t{:?}", i, r_clone_from(s));
+            println!("PROBE\tr_nested_closure\t{}\t{:?}", i, r_nested_closure(s));
+            println!("PROBE\tr_try_from\t{}\t{:?}", i, r_try_from(s));
             println!("PROBE\tr_u8_class\t{}\t{:?}", i, r_u8_class(s));
             println!("PROBE\tr_opt_iter_bytes\t{}\t{:?}", i, r_opt_iter_bytes(s));
             println!("PROBE\tr_ends_with_slice\t{}\t{:?}", i, r_ends_with_slice(s));
